@@ -33,6 +33,10 @@ use crate::table_manager::TableManager;
 mod sexp;
 use sexp::Term;
 
+// real session tasks on loopback TCP connections (shared with the C07/C08 harnesses)
+#[path = "/verif/harness/daemon/rig.rs"]
+mod rig;
+
 const SRC_LOCAL: u64 = 100;
 const SRC_KERNEL: u64 = 101;
 const FAMS: [Family; 4] = [Family::IPV4, Family::IPV6, Family::IPV4_VPN, Family::IPV6_VPN];
@@ -142,11 +146,24 @@ struct Attrs {
     org: u64,
     lc: bool,
     nollgr: bool,
+    /// LOCAL_PREF attribute present although the value is the default 100
+    lp_explicit: bool,
+    /// ORIGIN attribute absent when the value is the default INCOMPLETE (2)
+    org_absent: bool,
+    /// AS_PATH attribute present but empty when the length is 0
+    aspath_empty: bool,
+    /// an extended community that is not a route target precedes the route targets
+    extra_ec: bool,
 }
 
 fn build_attrs(a: &Attrs) -> Arc<Vec<packet::Attribute>> {
     let mut v = Vec::new();
-    v.push(packet::Attribute::new_with_value(packet::Attribute::ORIGIN, a.org as u32).unwrap());
+    if !(a.org_absent && a.org == 2) {
+        v.push(packet::Attribute::new_with_value(packet::Attribute::ORIGIN, a.org as u32).unwrap());
+    }
+    if a.asl == 0 && a.aspath_empty {
+        v.push(packet::Attribute::empty_as_path());
+    }
     if a.asl > 0 {
         let mut b = vec![packet::Attribute::AS_PATH_TYPE_SEQ, a.asl as u8];
         for i in 0..a.asl {
@@ -154,7 +171,7 @@ fn build_attrs(a: &Attrs) -> Arc<Vec<packet::Attribute>> {
         }
         v.push(packet::Attribute::new_with_bin(packet::Attribute::AS_PATH, b).unwrap());
     }
-    if a.lp != 100 {
+    if a.lp != 100 || a.lp_explicit {
         v.push(packet::Attribute::new_with_value(packet::Attribute::LOCAL_PREF, a.lp as u32).unwrap());
     }
     if a.lc || a.nollgr {
@@ -175,8 +192,12 @@ fn build_attrs(a: &Attrs) -> Arc<Vec<packet::Attribute>> {
         }
         v.push(packet::Attribute::new_with_bin(packet::Attribute::CLUSTER_LIST, b).unwrap());
     }
-    if !a.rts.is_empty() {
+    if !a.rts.is_empty() || a.extra_ec {
         let mut b = Vec::new();
+        if a.extra_ec {
+            // link bandwidth (non-transitive two-octet AS specific, sub-type 4): never a route target
+            b.extend_from_slice(&[0x40, 0x04, 0xfd, 0xe8, 0, 0, 0, 1]);
+        }
         for r in &a.rts {
             b.extend_from_slice(&rt_bytes(*r));
         }
@@ -272,7 +293,7 @@ fn build_policy(rules: &[Rule]) -> Option<Arc<table::PolicyAssignment>> {
 }
 
 struct World {
-    tables: TableManager,
+    tables: Arc<TableManager>,
     rx: kernel::verif::RequestReceiver,
     peers: Vec<(u32, u64)>,
     cur: Vec<Arc<table::Source>>,
@@ -382,6 +403,9 @@ impl World {
                                 && let Some(b) = a.binary()
                             {
                                 for c in b.chunks_exact(8) {
+                                    if c[0] == 0x40 {
+                                        continue; // the non-RT extended community of `extra_ec`
+                                    }
                                     rts.push(Term::nat(rt_id(c)));
                                 }
                             }
@@ -437,8 +461,9 @@ impl World {
     /// Returns None for an ill-formed op.
     fn op(&mut self, t: &Term) -> Option<()> {
         match t.head()? {
-            "ins" => {
-                let [src, f, id, pid, nh, lp, cl, rts, asl, org, fl] = t.tagged("ins")? else { return None };
+            "ins" | "insl" => {
+                let limited = t.head()? == "insl";
+                let [src, f, id, pid, nh, lp, cl, rts, asl, org, fl] = t.tagged(t.head()?)? else { return None };
                 let (src, f, id, pid, nh) = (src.as_u64()?, f.as_u64()?, id.as_u64()?, pid.as_u64()?, nh.as_u64()?);
                 let fl = fl.as_u64()?;
                 let a = Attrs {
@@ -449,22 +474,32 @@ impl World {
                     org: org.as_u64()?,
                     lc: fl & 1 != 0,
                     nollgr: fl & 2 != 0,
+                    lp_explicit: fl & 8 != 0,
+                    org_absent: fl & 16 != 0,
+                    aspath_empty: fl & 32 != 0,
+                    extra_ec: fl & 64 != 0,
                 };
                 let ll = fl & 4 != 0;
-                if fl >= 8 || a.lp > 1000 || a.cl > 1 || pid > 1000 || a.asl > 3 || a.org > 2
-                    || a.rts.iter().any(|r| *r > 1000) || (ll && nh < 100)
+                if fl >= 128 || a.lp > u32::MAX as u64 || a.cl > 3 || pid > u32::MAX as u64 || a.asl > 3 || a.org > 2
+                    || a.rts.iter().any(|r| *r > 1000) || (ll && nh < 100) || (limited && src >= 100)
                 {
                     return None;
                 }
                 let source = self.source_for(src)?;
                 let fam = family_of(f)?;
                 let net = packet::PathNlri { nlri: nlri_of(f, id)?, path_id: pid as u32 };
-                self.tables.insert_route(source, fam, net, Some(nexthop_of(nh, ll)?), build_attrs(&a), None, 0);
+                // `insl`: the session's prefix limit (0 prefixes) is already reached
+                let limit = if limited {
+                    Some((0u32, Arc::new(std::sync::atomic::AtomicU64::new(0))))
+                } else {
+                    None
+                };
+                self.tables.insert_route(source, fam, net, Some(nexthop_of(nh, ll)?), build_attrs(&a), limit, 0);
             }
             "rm" => {
                 let [src, f, id, pid] = t.tagged("rm")? else { return None };
                 let (src, f, id, pid) = (src.as_u64()?, f.as_u64()?, id.as_u64()?, pid.as_u64()?);
-                if pid > 1000 {
+                if pid > u32::MAX as u64 {
                     return None;
                 }
                 let source = self.source_for(src)?;
@@ -485,6 +520,26 @@ impl World {
                 let k = self.peer_arg(t, "stale")?;
                 self.tables.unregister_peer(peer_addr(k as u64), &[], &FAMS);
                 self.renew(k);
+            }
+            "gdown" => {
+                // session down with graceful restart negotiated for the families of the mask only
+                let [k, m] = t.tagged("gdown")? else { return None };
+                let (k, m) = (k.as_u64()? as usize, m.as_u64()?);
+                if k >= self.cur.len() || m >= 16 {
+                    return None;
+                }
+                let stale: Vec<Family> = (0..4).filter(|f| m >> f & 1 == 1).filter_map(family_of).collect();
+                let drop: Vec<Family> = (0..4).filter(|f| m >> f & 1 == 0).filter_map(family_of).collect();
+                self.tables.unregister_peer(peer_addr(k as u64), &drop, &stale);
+                self.renew(k);
+            }
+            "purgef" => {
+                let [k, f] = t.tagged("purgef")? else { return None };
+                let k = k.as_u64()? as usize;
+                if k >= self.cur.len() {
+                    return None;
+                }
+                self.tables.drop_stale_families(peer_addr(k as u64), &[family_of(f.as_u64()?)?]);
             }
             "purge" => {
                 let k = self.peer_arg(t, "purge")?;
@@ -530,10 +585,176 @@ fn vrfs_distinct(tids: &[u64]) -> bool {
     tids.iter().enumerate().all(|(i, t)| *t == 0 || !tids[i + 1..].contains(t))
 }
 
+fn step_term(w: &mut World) -> Term {
+    let (fib, nht) = w.drain();
+    Term::tag(
+        "step",
+        vec![
+            Term::tag(
+                "fib",
+                fib.into_iter()
+                    .map(|(t, f, id, nhs)| {
+                        Term::list(vec![
+                            Term::nat(t),
+                            Term::nat(f),
+                            Term::nat(id),
+                            Term::list(nhs.into_iter().map(Term::nat).collect()),
+                        ])
+                    })
+                    .collect(),
+            ),
+            Term::tag(
+                "nht",
+                nht.into_iter()
+                    .map(|(a, k)| Term::list(vec![Term::atom(if k == 0 { "r" } else { "u" }), Term::nat(a)]))
+                    .collect(),
+            ),
+            w.snapshot(),
+        ],
+    )
+}
+
+// ---------------------------------------------------------------- wire cases
+// One REAL eBGP session on a loopback TCP connection (harness/daemon/rig.rs): the routes reach the
+// TableManager through the real run_select -> rx_msg -> insert_route / remove_route path with the
+// session's own `Source`, and leave it through the real finish_session / apply_disconnect ->
+// unregister_peer when the remote speaker closes the connection.  Nothing of C20's subject is called
+// by the harness here; it only installs the observable kernel handle and reads requests and RIB.
+fn bgp_frame(ty: u8, body: &[u8]) -> Vec<u8> {
+    let mut f = vec![0xffu8; 16];
+    f.extend_from_slice(&((19 + body.len()) as u16).to_be_bytes());
+    f.push(ty);
+    f.extend_from_slice(body);
+    f
+}
+
+fn update_frame(withdrawn: &[u8], attrs: &[u8], nlri: &[u8]) -> Vec<u8> {
+    let mut b: Vec<u8> = Vec::new();
+    b.extend_from_slice(&(withdrawn.len() as u16).to_be_bytes());
+    b.extend_from_slice(withdrawn);
+    b.extend_from_slice(&(attrs.len() as u16).to_be_bytes());
+    b.extend_from_slice(attrs);
+    b.extend_from_slice(nlri);
+    bgp_frame(2, &b)
+}
+
+enum WireOp {
+    Ann(u64, u64),
+    Wd(u64),
+    Close,
+}
+
+const WIRE_REMOTE_ASN: u32 = 65002;
+
+async fn wire_establish(r: &mut rig::Rig, rid: u32) -> bool {
+    let role = crate::fsm::Role::Passive;
+    if !r.connect(role).await {
+        return false;
+    }
+    r.client_write(role, &rig::open_frame(WIRE_REMOTE_ASN, 90, rid)).await;
+    r.pump().await;
+    r.client_write(role, &rig::keepalive_frame()).await;
+    r.pump().await;
+    r.fsm_state(role) == crate::fsm::State::Established
+}
+
+async fn wire_async(rid: u32, ops: Vec<WireOp>) -> String {
+    let role = crate::fsm::Role::Passive;
+    let mut r = rig::Rig::new(rig::RigCfg { rid: 0x0101_0101, asn: 65001, hold: 90, expected: WIRE_REMOTE_ASN }).await;
+    let (handle, rx) = kernel::verif::handle_with_receiver();
+    r.tables.kernel_handle.store(Some(Arc::new(handle)));
+    let mut w = World {
+        tables: r.tables.clone(),
+        rx,
+        peers: vec![(rid, 0)],
+        cur: Vec::new(),
+        sent: Vec::new(),
+        outstanding: Default::default(),
+        underflow: false,
+    };
+    let mut steps = Vec::new();
+    for op in ops {
+        if !matches!(op, WireOp::Close) && r.conns[rig::idx(role)].is_none() {
+            // the remote speaker connects (again): a new session with a new Source
+            if !wire_establish(&mut r, rid).await {
+                return "(wire-not-established)".into();
+            }
+            let _ = w.drain();
+        }
+        match op {
+            WireOp::Ann(id, nh) => {
+                let mut attrs: Vec<u8> = vec![0x40, 1, 1, 0]; // ORIGIN IGP
+                attrs.extend_from_slice(&[0x40, 2, 6, 2, 1]); // AS_PATH: one AS_SEQUENCE of one 4-octet AS
+                attrs.extend_from_slice(&WIRE_REMOTE_ASN.to_be_bytes());
+                attrs.extend_from_slice(&[0x40, 3, 4, 192, 0, 2, nh as u8]); // NEXT_HOP
+                let f = update_frame(&[], &attrs, &[16, 10, id as u8]);
+                r.client_write(role, &f).await;
+            }
+            WireOp::Wd(id) => {
+                let f = update_frame(&[16, 10, id as u8], &[], &[]);
+                r.client_write(role, &f).await;
+            }
+            WireOp::Close => {
+                r.client_close(role).await;
+            }
+        }
+        r.pump().await;
+        steps.push(step_term(&mut w));
+    }
+    steps.push(Term::tag("order", vec![Term::atom(if w.underflow { "underflow" } else { "ok" })]));
+    Term::tag("trace", steps).to_string()
+}
+
+fn run_wire(t: &Term) -> Option<String> {
+    let [rid, ops] = t.tagged("wire")? else { return None };
+    let [rid] = rid.tagged("rid")? else { return None };
+    let rid = rid.as_u64()?;
+    if rid == 0 || rid > u32::MAX as u64 {
+        return None;
+    }
+    let mut parsed = Vec::new();
+    for o in ops.tagged("ops")? {
+        if o.as_atom() == Some("close") {
+            parsed.push(WireOp::Close);
+            continue;
+        }
+        match o.head()? {
+            "ann" => {
+                let [id, nh] = o.tagged("ann")? else { return None };
+                let (id, nh) = (id.as_u64()?, nh.as_u64()?);
+                if id > 250 || nh >= 100 {
+                    return None;
+                }
+                parsed.push(WireOp::Ann(id, nh));
+            }
+            "wd" => {
+                let [id] = o.tagged("wd")? else { return None };
+                let id = id.as_u64()?;
+                if id > 250 {
+                    return None;
+                }
+                parsed.push(WireOp::Wd(id));
+            }
+            _ => return None,
+        }
+    }
+    Some(RT.with(|rt| {
+        rt.block_on(async {
+            match tokio::time::timeout(std::time::Duration::from_secs(30), wire_async(rid as u32, parsed)).await {
+                Ok(s) => s,
+                Err(_) => "(wire-timeout)".to_string(),
+            }
+        })
+    }))
+}
+
 fn run_case(line: &str) -> Option<String> {
     let t = Term::parse(line)?;
     if let Some(reqs) = t.tagged("svc") {
         return run_svc(reqs);
+    }
+    if t.tagged("wire").is_some() {
+        return run_wire(&t);
     }
     let [peers, vrfs, opts, ops] = t.tagged("case")? else { return None };
     let mut plist = Vec::new();
@@ -564,7 +785,7 @@ fn run_case(line: &str) -> Option<String> {
     if !vrfs_distinct(&vlist.iter().map(|v| v.0).collect::<Vec<_>>()) || defer.iter().any(|f| *f > 3) {
         return None;
     }
-    let tables = TableManager::new(2);
+    let tables = Arc::new(TableManager::new(2));
     for (i, (tid, rts)) in vlist.iter().enumerate() {
         tables
             .add_vrf(
@@ -585,32 +806,7 @@ fn run_case(line: &str) -> Option<String> {
     let mut steps = Vec::new();
     for o in ops.tagged("ops")? {
         w.op(o)?;
-        let (fib, nht) = w.drain();
-        steps.push(Term::tag(
-            "step",
-            vec![
-                Term::tag(
-                    "fib",
-                    fib.into_iter()
-                        .map(|(t, f, id, nhs)| {
-                            Term::list(vec![
-                                Term::nat(t),
-                                Term::nat(f),
-                                Term::nat(id),
-                                Term::list(nhs.into_iter().map(Term::nat).collect()),
-                            ])
-                        })
-                        .collect(),
-                ),
-                Term::tag(
-                    "nht",
-                    nht.into_iter()
-                        .map(|(a, k)| Term::list(vec![Term::atom(if k == 0 { "r" } else { "u" }), Term::nat(a)]))
-                        .collect(),
-                ),
-                w.snapshot(),
-            ],
-        ));
+        steps.push(step_term(&mut w));
     }
     steps.push(Term::tag("order", vec![Term::atom(if w.underflow { "underflow" } else { "ok" })]));
     if feed {
